@@ -115,6 +115,52 @@ def gen_codes(rng, thorough):
     return out
 
 
+INIT_CALLS = {"cond": ["condattr_init", "condattr_setclock", "cond_init", "condattr_destroy"],
+              "rmutex": ["mutexattr_init", "mutexattr_settype", "mutex_init", "mutexattr_destroy"],
+              "mutex": ["mutex_init"], "rwlock": ["rwlock_init"], "barrier": ["barrier_init"], "sem": ["sem_init"],
+              "thread": ["attr_init", "attr_setstacksize"]}
+
+
+def gen_init(rng, thorough):
+    """a failure injected at every setup call of every init wrapper, every errno"""
+    out = []
+    for wname, calls in INIT_CALLS.items():
+        out.append(f"init {wname} none 0")
+        for c in calls:
+            for rc in (list(range(1, 135)) if thorough else [1, EINTR, EAGAIN, 12, EBUSY, EINVAL, 38, 95, ETIMEDOUT, rng.range(1, 134)]):
+                out.append(f"init {wname} {c} {rc}")
+    for rc in (0, EINVAL, 12, 95):
+        out.append(f"condfault {rc} {rng.range(1, 4) * 10 ** 6}")
+    return out
+
+
+def gen_clock_session(rng, res, lag, n):
+    """one process: the coarse clock answers resolution `res` and lags the precise clock by `lag` ns;
+    precise readers before and after a UV_CLOCK_FAST reader (loop init / uv_update_time) cached its choice"""
+    L = [f"coarse {res} {lag}"]
+    def now():
+        t = lag + rng.below(1 << rng.range(20, 50))
+        return t // NS, t % NS
+    def some(k):
+        for _ in range(k):
+            s_, ns = now()
+            r = rng.below(3)
+            if r == 0:
+                L.append(f"hrtime {s_} {ns}")
+            elif r == 1:
+                L.append(f"timedwait {s_} {ns} {rng.below(1 << rng.range(1, 40))} {rng.choice([0, ETIMEDOUT])}")
+            else:
+                L.append(f"fastclock {s_} {ns}")
+    if rng.chance(1, 2):
+        s_, ns = now(); L.append(f"hrtime {s_} {ns}"); L.append(f"timedwait {s_} {ns} 5000000 {ETIMEDOUT}")
+    s_, ns = now(); L.append(f"fastclock {s_} {ns}")
+    s_, ns = now(); L.append(f"hrtime {s_} {ns}"); L.append(f"timedwait {s_} {ns} 5000000 {ETIMEDOUT}")
+    some(n)
+    if lag and lag <= 4 * 10 ** 6:
+        L.append(f"condfault 0 {lag + 2 * 10 ** 6}")     # real wait: early by `lag` if the deadline came from the coarse clock
+    return L
+
+
 def gen_timedwait(rng, n):
     out = []
     nows = [0, 1, NS - 1, NS, NS + 1, 12345678901234, 2 ** 62, U64 - NS, U64 - 2, U64 - 1]
@@ -230,6 +276,40 @@ def scripted_monitor(cmd, o):
             if ds * NS + dn < min(now + t, U64 - 1):
                 return ("timedwait-deadline-early",
                         f"uv_cond_timedwait(timeout={t}) at hrtime {now}: absolute deadline {ds * NS + dn} ns is earlier than now+timeout")
+        return None
+    if w[0] == "init":
+        rc = int(w[3])
+        if w[2] != "none" and rc != 0 and ow[:2] == ["ret", "0"]:
+            return ("init-success-despite-setup-failure",
+                    f"uv_{w[1]}_init: {w[2]} failed with {rc} but the wrapper returned 0 (hands out a half-configured object): `{o}`")
+        if ow[:2] == ["ret", "0"] and w[1] != "thread":
+            d = kv(o, 2)
+            if d.get("live") != "1" or d.get("cfg", "1") != "1":
+                return ("init-half-configured-object", f"uv_{w[1]}_init returned 0 but no fully configured primitive exists: `{cmd}` -> `{o}`")
+        if w[1] == "thread" and ow[0] == "ret" and (w[2] != "none" and rc != 0) and "created 1" in o:
+            return ("init-success-despite-setup-failure", f"thread created although {w[2]} failed with {rc}: `{o}`")
+        return None
+    if w[0] == "condfault":
+        if ow[:3] == ["condfault", "ret", "0"]:
+            d = kv(o, 3)
+            if d["timedwait"] == str(-ETIMEDOUT) and d["not_early"] != "1":
+                return ("timedwait-early-real",
+                        f"a condvar uv_cond_init returned 0 for (pthread_condattr_setclock answered {w[1]}) timed out before "
+                        f"{w[2]} ns had elapsed on CLOCK_MONOTONIC: `{o}`")
+        elif int(w[1]) == 0:
+            return ("cond-init-failed", f"`{cmd}` -> `{o}`")
+        return None
+    if w[0] == "coarse":
+        return None if o == "ok" else ("harness-protocol", f"`{cmd}` -> `{o}`")
+    if w[0] == "hrtime":
+        now = int(w[1]) * NS + int(w[2])
+        if ow[0] != "hrtime" or int(ow[3]) != 1 or (now < U64 and int(ow[1]) != now):
+            return ("hrtime-not-precise-clock",
+                    f"uv_hrtime() with CLOCK_MONOTONIC at {now} ns: `{o}` (must read the precise clock, id 1)")
+        return None
+    if w[0] == "fastclock":
+        if ow[0] != "fastclock" or int(ow[4]) > (int(w[1]) * NS + int(w[2])) // 10 ** 6:
+            return ("loop-time-ahead-of-clock", f"`{cmd}` -> `{o}`")
         return None
     if w[0] == "initattr":
         if w[1] == "rmutex" and o != "mutex-type 1":
@@ -403,6 +483,9 @@ def real_monitor(cmd, outs):
                 bad.append(("cond-not-released", outs[0]))
             if int(d["max_inside"]) > 1:
                 bad.append(("cond-wait-returns-without-mutex", outs[0]))
+    elif w[0] == "loopinit":
+        if not need(1) or outs[0] != "loopinit 0":
+            bad.append(("real-harness-protocol", f"`{cmd}` produced {outs}"))
     elif w[0] == "timedwait":
         if not need(1): return bad
         d = kv(outs[0], 1)
@@ -486,6 +569,7 @@ def real_program(rng, nt, rounds, reps):
         L.append(f"contend rwlock-wwait 2 {rng.range(3, 5)}")
         for what in ("sem-intr", "mutex-intr", "cond-intr"):
             L.append(f"contend {what} {rng.range(2, min(nt, 8))} {rng.range(3, 6)}")
+    L.append("loopinit")          # a UV_CLOCK_FAST reader runs before the timed waits
     for t in (0, 1, 999, 10 ** 6, 3 * 10 ** 6 + rng.below(10 ** 6), 2 * 10 ** 7):
         L.append(f"timedwait {t}")
     return L
@@ -574,6 +658,13 @@ def run(ctx):
         run_scripted(ctx, sexe, st, "stack size")
         tw = gen_timedwait(rng, ctx.scale(3000, 600000))
         run_scripted(ctx, sexe, tw, "timedwait deadline")
+        run_scripted(ctx, sexe, gen_init(rng, thorough), "setup-call failures in init wrappers")
+        nsess = 0
+        for res in (1, 999999, 1000000, 1000001, 4000000, "fail"):
+            for lag in [0, 999999, 3000000] + ([rng.below(4000000)] if thorough else []):
+                run_scripted(ctx, sexe, gen_clock_session(rng, res, lag, ctx.scale(12, 400)), f"clock session res={res} lag={lag}")
+                nsess += 1
+        ctx.notes["clock_sessions"] = nsess
         ctx.sample({"scripted": [codes[20], st[5], st[-1], tw[3], tw[-1]]})
         ctx.notes["scripted_lines"] = {"codes": len(codes), "stack": len(st), "timedwait": len(tw)}
     if rexe:
